@@ -406,8 +406,13 @@ def eval_int(n, env, atom=None):
         if a is None or b is None:
             return None
         try:
+            if s.op in ('/', '%'):
+                if b == 0:
+                    return None
+                qt = abs(a) // abs(b) * (1 if (a >= 0) == (b >= 0) else -1)      # C: truncation towards zero
+                return qt if s.op == '/' else a - qt * b
             return {'+': a + b, '-': a - b, '*': a * b, '<': int(a < b), '>': int(a > b), '<=': int(a <= b),
-                    '>=': int(a >= b), '==': int(a == b), '!=': int(a != b)}.get(s.op)
+                    '>=': int(a >= b), '==': int(a == b), '!=': int(a != b), '&': a & b, '|': a | b}.get(s.op)
         except Exception:
             return None
     return None
